@@ -6,7 +6,7 @@ from ..strategies import sample_cases, sim_cases
 from ._sim_common import frac, summarize
 
 ID = "C10"
-RULE = ("Configurations as for C05 run with a recording Logger subclass (write / bulk_write / write_and_direct_process and "
+RULE = ("(every queued record and each session's end record must be HANDLED while their own session is still the current one; a cancel record carries the clock reading at acceptance, also when the Cancel object came pre-stamped) Configurations as for C05 run with a recording Logger subclass (write / bulk_write / write_and_direct_process and "
         "every process_*_log handler recorded; Logger.process itself is pams' own, so the handlers see what a user's logger would see: each record through the handler of its type, in the order it was handed over). Ground truth: the Order / Cancel objects the (scripted and traced built-in) agents returned, "
         "their final volumes, the markets' per-step executed volume and turnover, and a lifetime model for expiries. "
         "Checked: exactly one OrderLog / CancelLog per accepted order / cancel with equal fields, fill records whose per-order "
